@@ -631,14 +631,22 @@ Section Stream.
     destruct (s_unreaped c); simpl; repeat split; lia.
   Qed.
 
+  Lemma safter_spawn_bound c k :
+    smeasure (safter_spawn i c k) <= 1 + sum_from k + 3 * length (s_queue c) + 4 * todo_sum (s_workers c).
+  Proof. destruct (safter_spawn_measure c k) as (H1 & H2 & H3). unfold smeasure. rewrite H2, H3. lia. Qed.
+
+  Lemma todo_sum_single x : todo_sum [x] = length x.
+  Proof. simpl. lia. Qed.
+
   Lemma sstep_measure c t c' : sstep i c t = Some c' -> smeasure c' < smeasure c.
   Proof.
     destruct t as [|w]; simpl.
     - unfold sstep_main. destruct (s_main c) eqn:Em.
       + destruct (nth_error (si_suites i) k) as [s|] eqn:Es; [|discriminate]. intro H; injection H as <-.
-        match goal with |- smeasure (safter_spawn i ?c1 ?k1) < _ => destruct (safter_spawn_measure c1 k1) as (H1 & H2 & H3) end.
-        unfold smeasure. rewrite H2, H3, Em. simpl. rewrite todo_sum_app. simpl.
-        rewrite (sum_from_nth _ _ Es). pose proof (worker_puts_length k base s). unfold sweight. lia.
+        eapply Nat.le_lt_trans; [apply safter_spawn_bound|].
+        cbn [s_queue s_workers]. rewrite todo_sum_app, todo_sum_single.
+        unfold smeasure. rewrite Em. cbn [smw].
+        rewrite (sum_from_nth _ _ Es). pose proof (worker_puts_length k (si_base i) s). unfold sweight. lia.
       + destruct (option_eqb Nat.eqb (si_get_intr i) (Some (s_gets c))).
         * intro H; injection H as <-. unfold smeasure. rewrite Em. simpl. lia.
         * destruct (s_queue c) as [|q rest] eqn:Eq; [discriminate|]. intro H; injection H as <-.
@@ -650,14 +658,14 @@ Section Stream.
         unfold smeasure. rewrite Em. simpl. destruct (s_unreaped c); simpl; lia.
       + discriminate.
     - unfold sstep_worker. destruct (nth_error (s_workers c) w) as [[|q todo]|] eqn:En; try discriminate.
-      intro H; injection H as <-. unfold smeasure. simpl. rewrite app_length. simpl.
+      intro H; injection H as <-. unfold smeasure. cbn [s_main s_queue s_workers]. rewrite app_length. simpl length.
       pose proof (todo_sum_upd _ _ _ _ En). lia.
   Qed.
 
   Lemma sinit_measure : smeasure (sinit i) <= sfuel i.
   Proof.
-    unfold sinit. match goal with |- smeasure (safter_spawn i ?c1 ?k1) <= _ => destruct (safter_spawn_measure c1 k1) as (H1 & H2 & H3) end.
-    unfold smeasure. rewrite H2, H3. simpl. unfold sfuel. unfold sum_from in H1. simpl in H1. lia.
+    unfold sinit. eapply Nat.le_trans; [apply safter_spawn_bound|].
+    cbn [s_queue s_workers]. unfold sum_from, sfuel. simpl. lia.
   Qed.
 
   (* ---- somebody can always move ---- *)
@@ -684,7 +692,7 @@ Section Stream.
       pose proof HI as [Hle Hsp Hown Hwk Hfifo Hqo Hdl Hts Hjo Hns Hps Hph Hrun].
       unfold smain_done in Hnd. unfold sstep_main. destruct (s_main c) eqn:Em; try discriminate.
       + destruct Hph as (Hj & HjK & _).
-        assert (k < n) by (unfold K, started in HjK; destruct (si_mt_raise i); lia).
+        assert (Hkn : k < n) by (clear - HjK; unfold K, started in HjK; destruct (si_mt_raise i); lia).
         destruct (nth_error (si_suites i) k) eqn:E; [discriminate | apply nth_error_None in E; fold n in E; lia].
       + destruct (option_eqb Nat.eqb (si_get_intr i) (Some (s_gets c))); [discriminate|].
         destruct Hph as (HwK & HKn & Hmt & Hune). destruct Hrun as (_ & _ & _ & _ & Hu).
@@ -720,3 +728,70 @@ Section Stream.
     - pose proof sinit_measure. lia.
   Qed.
 End Stream.
+
+(* ---- the stream model meets the statement ---- *)
+Lemma ev3_eqb_refl x : ev3_eqb x x = true.
+Proof.
+  destruct x as [[a b] o]. unfold ev3_eqb. simpl. rewrite !Nat.eqb_refl. simpl.
+  destruct o; simpl; [apply Nat.eqb_refl | reflexivity].
+Qed.
+
+Lemma is_prefix_app {A} (eqb : A -> A -> bool) (Hr : forall x, eqb x x = true) a b : is_prefix eqb a (a ++ b) = true.
+Proof. induction a as [|x a IH]; simpl; [reflexivity | rewrite Hr, IH; reflexivity]. Qed.
+
+Lemma nth_error_firstn {A} (l : list A) k w x : nth_error (firstn k l) w = Some x -> w < k /\ nth_error l w = Some x.
+Proof.
+  revert k w. induction l as [|a l IH]; intros [|k] [|w] H; simpl in *; try discriminate.
+  - injection H as <-. split; [lia | reflexivity].
+  - destruct (IH k w H) as [H1 H2]. split; [lia | exact H2].
+Qed.
+
+Lemma ev_of_worker_puts w base s : ev_of (worker_puts w base s) = ev_of (emits w base s).
+Proof. unfold worker_puts. simpl. rewrite ev_of_app. simpl. apply app_nil_r. Qed.
+
+Theorem stream_meets_spec : forall i, spec_okb (IStream i) (model (IStream i)) = true.
+Proof.
+  intro i. destruct (srun_inv i) as [HI Hd]. unfold spec_okb, model. set (c := srun i) in *.
+  pose proof HI as [Hle Hsp Hown Hwk Hfifo Hqo Hdl Hts Hjo Hns Hps Hph Hrun].
+  unfold sall_done in Hd. apply andb_true_iff in Hd as [Hmd Hwd].
+  unfold smain_done in Hmd. destruct (s_main c) eqn:Em; try discriminate.
+  destruct Hph as (Hr & Hst & Hlive & HwK & Hnr).
+  unfold pend_status, pend_join in *. rewrite Em in Hdl, Hjo. rewrite app_nil_r in Hjo.
+  set (n := length (si_suites i)) in *. set (K := started n (si_mt_raise i)) in *.
+  apply andb_true_iff; split.
+  - (* what is common to both suites *)
+    unfold common_okb. cbn [o_trace o_raised o_live o_stops o_deadlock]. fold n. fold K.
+    unfold sall_done, smain_done. rewrite Em, Hwd. simpl.
+    rewrite Hown, Hsp, HwK. simpl.
+    rewrite (proj2 (list_eqb_spec _ Nat.eqb_eq _ _) eq_refl). simpl.
+    rewrite Hlive, Nat.eqb_refl. simpl.
+    unfold raise_expected in Hr. fold n in Hr. rewrite <- Hr.
+    replace (Bool.eqb (s_raised c) (s_raised c)) with true by (destruct (s_raised c); reflexivity).
+    rewrite Hns, Hst.
+    destruct (s_raised c) eqn:Er; simpl.
+    + rewrite firstn_all. apply (list_eqb_spec _ Nat.eqb_eq). reflexivity.
+    + destruct (Hnr eq_refl) as [Hl _]. rewrite Hl. reflexivity.
+  - (* delivery, per worker *)
+    cbn [o_trace o_raised]. fold n. fold K.
+    apply forallb_idx_spec. intros w s Hn. simpl.
+    apply nth_error_firstn in Hn as [HwKlt Hn].
+    destruct (nth_error (s_workers c) w) as [todo|] eqn:Enw; [|apply nth_error_None in Enw; lia].
+    rewrite forallb_forall in Hwd. pose proof (Hwd _ (nth_error_In _ _ Enw)) as Htd. destruct todo; [|discriminate].
+    destruct (Hwk w _ Enw) as (s' & Hs' & E). rewrite Hn in Hs'. injection Hs' as <-. rewrite app_nil_r in E.
+    assert (Hsplit : ev_of (fw w (gotten (s_log c))) ++ ev_of (fw w (s_queue c)) = ev_of (emits w (si_base i) s)).
+    { rewrite <- ev_of_app, <- fw_app, Hfifo, E. apply ev_of_worker_puts. }
+    unfold stream_worker_okb. rewrite Hts. simpl.
+    specialize (Hdl w). simpl in Hdl. rewrite app_nil_r in Hdl.
+    change (map (fun x => fst (fst x)) (delivered w (s_log c))) with (map to3 (delivered w (s_log c))).
+    rewrite Hdl, <- Hsplit. rewrite (is_prefix_app _ ev3_eqb_refl). simpl.
+    destruct (s_raised c) eqn:Er; [reflexivity|]. simpl.
+    destruct (Hnr eq_refl) as [_ Hun].
+    assert (Hm : memb w (joins (s_log c)) = true) by (apply (unreaped_nil_all _ _ Hun); exact HwKlt).
+    rewrite Hjo in Hm. apply stopsq_in in Hm.
+    assert (Hq : fw w (s_queue c) = []).
+    { apply (stop_is_last w (si_base i) s (fw w (gotten (s_log c)))).
+      - rewrite <- fw_app, Hfifo. exact E.
+      - apply filter_In. split; [exact Hm | simpl; apply Nat.eqb_refl]. }
+    rewrite Hq. simpl. rewrite app_nil_r.
+    rewrite <- Hdl, map_length. apply Nat.eqb_refl.
+Qed.
